@@ -723,6 +723,73 @@ Definition Known_C20_derive_display (req : list derive) : Prop := has req DDispl
 Definition json_methods_code (e : list derive) : Z :=
   (if has e DSerialize then 1 else 0) + (if has e DDeserialize then 2 else 0).
 
+(* ------------------------------------------------------------------ class hierarchies (`class C extends B`) *)
+
+(* the class declarations of a program: name -> (parent, own fields in source order). Names are numbers. *)
+Definition cdecl : Type := option Z * list (str * ty).
+Definition ctable : Type := list (Z * cdecl).
+
+Fixpoint clookup (c : Z) (tbl : ctable) : option cdecl :=
+  match tbl with
+  | [] => None
+  | (c', d) :: tbl' => if c =? c' then Some d else clookup c tbl'
+  end.
+
+(* lower/decl.rs collect_inherited_fields(class_name, fields): recursive — first the grandparent's
+   inherited fields, then the parent's own fields. The real function recurses without bound; the
+   model takes fuel and the theorem shows that the length of the `extends` chain suffices. *)
+Fixpoint collect_inherited_fields (fuel : nat) (tbl : ctable) (c : Z) : option (list (str * ty)) :=
+  match fuel with
+  | O => None                                   (* out of fuel *)
+  | S f =>
+      match clookup c tbl with
+      | None => Some []                         (* class_decls.get(name) = None: nothing to add *)
+      | Some (parent, own) =>
+          match parent with
+          | Some g => match collect_inherited_fields f tbl g with
+                      | Some up => Some (up ++ own)
+                      | None => None
+                      end
+          | None => Some own
+          end
+      end
+  end.
+
+(* lower_class: inherited fields first, then the class's own fields *)
+Definition class_fields (fuel : nat) (tbl : ctable) (c : Z) : option (list (str * ty)) :=
+  match clookup c tbl with
+  | None => Some []
+  | Some (parent, own) =>
+      match parent with
+      | Some g => match collect_inherited_fields fuel tbl g with
+                  | Some up => Some (up ++ own)
+                  | None => None
+                  end
+      | None => Some own
+      end
+  end.
+
+(* the `extends` chain of a declared class, from the class itself up to the root (finite = acyclic) *)
+Inductive chain (tbl : ctable) : Z -> list Z -> Prop :=
+| chain_root : forall c own, clookup c tbl = Some (None, own) -> chain tbl c [c]
+| chain_open : forall c g own, clookup c tbl = Some (Some g, own) -> clookup g tbl = None -> chain tbl c [c]
+| chain_step : forall c g own l, clookup c tbl = Some (Some g, own) -> chain tbl g l -> chain tbl c (c :: l).
+
+Definition own_fields (tbl : ctable) (c : Z) : list (str * ty) :=
+  match clookup c tbl with Some (_, own) => own | None => [] end.
+
+(* the documented declaration order of a class's fields: the most distant ancestor's fields first,
+   then each descendant's, the class's own fields last *)
+Definition spec_class_fields (tbl : ctable) (chain_from_class : list Z) : list (str * ty) :=
+  flat_map (own_fields tbl) (rev chain_from_class).
+
+(* the visit-order variant (an iterative walk up the chain appending as it goes): parent, grandparent, ... *)
+Definition visit_order_fields (tbl : ctable) (chain_from_class : list Z) : list (str * ty) :=
+  match chain_from_class with
+  | [] => []
+  | c :: ancestors => flat_map (own_fields tbl) ancestors ++ own_fields tbl c
+  end.
+
 (* ------------------------------------------------------------------ rendering for the correspondence run *)
 
 Definition render_jres (r : jres value) : Z * str :=
@@ -733,3 +800,10 @@ Definition cmp_code (c : comparison) : Z := match c with Lt => -1 | Eq => 0 | Gt
 Definition run_pair (a b : value) : list bool :=
   [veq a b; vlt a b; vle a b; vlt b a; vle b a].
 Definition run_distinct (l : list value) : Z := Z.of_nat (length (distinct_keys l)).
+
+(* names of a field list, flattened with -1 as separator (for the correspondence run) *)
+Definition run_class_fields (tbl : ctable) (c : Z) : list Z :=
+  match class_fields (S (length tbl)) tbl c with
+  | Some fs => flat_map (fun f => fst f ++ [-1]) fs
+  | None => [-2]
+  end.
